@@ -152,7 +152,9 @@ static void on_listener(uint32_t lid, uint32_t a, uint32_t b)
 	vf_obs(1, b);
 	if(t.li == 0) t.ndisp++;
 	t.li++;
+	vf_assert(! g->q->emptyQueue(), 66);              // seen as non-empty from inside a listener a processing call is running
 	reentrant_action();
+	vf_assert(! g->q->emptyQueue(), 67);              // ... also after a nested processing call issued by this listener has returned
 }
 
 static bool on_predicate(uint32_t a, uint32_t b)
